@@ -310,6 +310,17 @@ Proof.
     destruct Hq as [Hq|Hq]; [exfalso; exact (Nx q Kq Hq)|]. apply IH; auto; lia.
 Qed.
 
+(* "equal up to the names of the star parameters", as a relation *)
+Lemma lneutral_upto_star_names nva nvk ps :
+  Forall2 (fun p q => pkind q = pkind p /\ pdef q = pdef p /\ pann q = pann p /\ puann q = puann p /\
+                      (pname q = pname p \/ (pkind p = VP /\ pname q = nva) \/ (pkind p = VK /\ pname q = nvk)))
+          ps (lneutral nva nvk ps).
+Proof.
+  unfold lneutral. generalize (has_kind PO ps), (has_kind KO ps). intros b1 b2.
+  induction ps as [|p ps IH]; [constructor|]. cbn [map]. constructor; [|exact IH].
+  destruct (pkind p) eqn:E; try destruct b1; try destruct b2; cbn; rewrite ?E; auto 10.
+Qed.
+
 Lemma lneutral_shape nva nvk ps : Forall2 same_shape ps (lneutral nva nvk ps).
 Proof.
   unfold lneutral. generalize (has_kind PO ps), (has_kind KO ps). intros b1 b2.
@@ -430,6 +441,7 @@ Qed.
 
 Print Assumptions merger_left_neutral.
 Print Assumptions merge_left_neutral.
+Print Assumptions lneutral_upto_star_names.
 Print Assumptions merge_left_neutral_fresh.
 Print Assumptions merge_left_neutral_same.
 Print Assumptions merge_left_neutral_po_ko.
